@@ -191,6 +191,44 @@ pub fn random_layout(rng: &mut Rng, flavor: Flavor) -> Layout {
   Layout { mappings }
 }
 
+// layouts rich in absorbing structure: several absorbed keys per mapping, modifier-ish keys that are
+// also outputs of other mappings (remaps), overlapping chords
+pub fn absorbing_rich_layout(rng: &mut Rng) -> Layout {
+  let pool = [LEFTSHIFT, LEFTCTRL, CAPSLOCK, A];
+  let nm = rng.range(2, 3);
+  let ms = distinct(rng, &pool, nm);
+  let finals = [B, C, A, LEFTCTRL];
+  let outs = [X, Y, B, LEFTSHIFT, LEFTCTRL, CAPSLOCK, A];
+  let mut mappings = Vec::new();
+  let n = rng.range(2, 4);
+  for i in 0..n {
+    if i == 0 && rng.chance(2, 3) {
+      // a remap of one modifier-ish key onto another (or onto nothing / a pair)
+      let from = vec![*rng.pick(&ms)];
+      let to = match rng.below(4) { 0 => vec![], 1 => vec![*rng.pick(&ms)], 2 => vec![*rng.pick(&ms), X], _ => vec![*rng.pick(&outs)] };
+      let mut t2: Vec<KeyCode> = Vec::new();
+      for k in to { if !t2.contains(&k) { t2.push(k); } }
+      mappings.push(Mapping { from, to: t2, repeat: Repeat::Normal, absorbing: vec![] });
+      continue;
+    }
+    let np = rng.range(1, ms.len());
+    let mut from = distinct(rng, &ms, np);
+    let fin = *rng.pick(&finals);
+    from.retain(|k| *k != fin);
+    if from.is_empty() { from.push(if fin == ms[0] { ms[1] } else { ms[0] }); }
+    let prefix = from.clone();
+    from.push(fin);
+    let nt = rng.below(3);
+    let to = distinct(rng, &outs, nt);
+    let mut absorbing: Vec<KeyCode> = prefix.iter().cloned().filter(|_| rng.chance(2, 3)).collect();
+    if absorbing.is_empty() && rng.chance(3, 4) { absorbing.push(prefix[0]); }
+    if rng.chance(1, 2) { absorbing.reverse(); }
+    let repeat = match rng.below(8) { 0 => Repeat::Disabled, 1 => Repeat::Special { keys: vec![X], delay_ms: 130, interval_ms: 30 }, _ => Repeat::Normal };
+    mappings.push(Mapping { from, to, repeat, absorbing });
+  }
+  Layout { mappings }
+}
+
 // ---- enumerated family: every layout of <= 2 mappings over a 4-key alphabet ----
 // triggers of 1..2 keys, outputs of 0..2 keys, repeat in {Normal, Disabled, Special([X],..)},
 // every absorbing subset of the trigger minus its final key.
